@@ -15,4 +15,25 @@ func init() {
 		Real:    barrierReal, Stubbed: barrierStub,
 		Assume:  []string{"quiescence is the scheduler verdict (no task runnable, all finished), not a sleep"},
 	})
+
+	slReal := []string{"skiplist package used directly: Insert2/Insert4, Delete, DeleteNode/DeleteNode2, Lookup, findPath, helpDelete, softDelete, NewLevel, iterators, statistics, access barrier (user-managed mode)"}
+	slStub := []string{"goroutine scheduling (nsim scheduler)", "node allocator in user-managed mode: guard allocator (own page per block, poison + mprotect on free, no address reuse)", "level choice: randFn supplied by the plan", "key comparator: harness comparator over int items (a yield point)"}
+	defCheck(&checkDef{Prop: "C13", Level: "exploration",
+		Scens:  []scenBudget{{"sl", 40000, 1500000}},
+		Rule:   "one evaluation = one plan (2-4 client tasks x 2-10 Insert2/Delete/DeleteNode/Lookup over 1-4 contended keys plus stable neighbours, tower heights 0-6 and a pre-built ladder up to MaxLevel, Go-managed or guard-allocated nodes) under one drawn schedule; oracle = porcupine per-key register model incl. node identity for DeleteNode + final iterator scan as final reads; non-trivial = a preemption inside an operation; distinct = distinct trace hash",
+		Real:   slReal, Stubbed: slStub,
+		Assume: []string{"sequential consistency at yield-site granularity (every getNext load and dcasNext CAS)", "<=4 tasks x <=10 ops, <=4 contended keys"},
+	})
+	defCheck(&checkDef{Prop: "C14", Level: "exploration",
+		Scens:  []scenBudget{{"sl", 40000, 1500000}},
+		Rule:   "same runs as C13 (skiplist level); at scheduler-detected quiescence a non-yielding walk of all 33 levels checks chain/acyclic/strictly-increasing/sub-sequence/tower invariants and reconciles GetStats()/MemoryInUse()/allocs-frees with the walk and the allocator; non-trivial = a preemption inside an operation; distinct = distinct trace hash",
+		Real:   slReal, Stubbed: slStub,
+		Assume: []string{"quiescence is the scheduler verdict"},
+	})
+	defCheck(&checkDef{Prop: "C04", Level: "exploration",
+		Scens:  []scenBudget{{"sl", 40000, 1500000}},
+		Rule:   "user-managed memory with the guard allocator; every free checks the block is live (double/unknown free) and, for node blocks, that the node is not reachable on any level; any access to a freed block faults (mprotect) or trips the poison check; non-trivial = a preemption inside an operation; distinct = distinct trace hash",
+		Real:   slReal, Stubbed: slStub,
+		Assume: []string{"the guard allocator never reuses an address within a run"},
+	})
 }
